@@ -42,7 +42,7 @@ func isTokenRead(name string) bool {
 // advanceFuncs: bufio.SplitFunc-style scanners; with atEOF=true and a non-empty input they return advance > 0.
 var advanceFuncs = map[string]bool{
 	"github.com/apparentlymart/go-textseg/v13/textseg.ScanGraphemeClusters": true,
-	"github.com/apparentlymart/go-textseg/v13/textseg.ScanUTF8Sequences":   true,
+	"github.com/apparentlymart/go-textseg/v13/textseg.ScanUTF8Sequences":    true,
 }
 
 // shrinkingLoop: the loop is governed by a slice that gets strictly shorter on every way round:
